@@ -556,6 +556,8 @@ where
     #[inline]
     fn add_node(&self, node: N) -> AllocResult<[Edge<'id, N, ET>; 2]> {
         debug_assert_eq!(node.load_rc(Relaxed), 2);
+        #[cfg(oxidd_verif)]
+        oxidd_core::verif::yield_point(2);
         let res = LOCAL_STORE_STATE.with(|state| {
             let node_count_delta = if state.current_store.get() == addr(self) {
                 let delta = state.node_count_delta.get() + 1;
@@ -727,6 +729,8 @@ where
     #[inline]
     unsafe fn free_slot(&self, slot: &mut Slot<N>, id: u32) {
         debug_assert!(id as usize >= TERMINALS);
+        #[cfg(oxidd_verif)]
+        oxidd_core::verif::yield_point(9);
         // SAFETY: We don't use the node in `slot` again.
         unsafe { ManuallyDrop::take(&mut slot.node) }.drop_with(|edge| self.drop_edge(edge));
 
@@ -1207,6 +1211,8 @@ where
     #[track_caller]
     #[inline(always)]
     fn level(&self, no: LevelNo) -> Self::LevelView<'_> {
+        #[cfg(oxidd_verif)]
+        oxidd_core::verif::yield_point(1);
         LevelView {
             store: self.store(),
             var_level_map: &self.var_level_map,
@@ -1272,13 +1278,19 @@ where
                 .as_secs()
         );
 
+        #[cfg(oxidd_verif)]
+        oxidd_core::verif::yield_point(3);
         if !self.reorder_gc_prepared {
             self.data.pre_gc(self);
         }
+        #[cfg(oxidd_verif)]
+        oxidd_core::verif::yield_point(4);
 
         let store = self.store();
         let mut collected = 0;
         for level in &self.unique_table {
+            #[cfg(oxidd_verif)]
+            oxidd_core::verif::yield_point(5);
             let mut level = level.lock();
             collected += level.len() as u32;
             // SAFETY: We prepared the garbage collection, hence there are no
@@ -1288,6 +1300,8 @@ where
         }
         collected += store.terminal_manager.gc();
 
+        #[cfg(oxidd_verif)]
+        oxidd_core::verif::yield_point(6);
         if !self.reorder_gc_prepared {
             // SAFETY: We called `pre_gc`, the garbage collection is done.
             unsafe { self.data.post_gc(self) };
